@@ -6,6 +6,22 @@ package proxy
 // policies are injected, and the transport is replaced through the package
 // variable fnSendRequest by a stub that follows a generated outcome script and
 // records when it was called. Durations are real but small (1–5 ms).
+//
+// Timing robustness (the check must never alarm on an unchanged tree, however
+// loaded the machine is): no outcome depends on a race between a real timer and
+// the scheduler.
+//   - pool timeout "small" (10 ms): the script only contains entries whose
+//     classification does not consult the request context (responses) and
+//     "hang" (the stub waits until the context is done, so it is a deadline
+//     however late the goroutine runs); no network errors, no cancellation;
+//   - pool timeout "large" (5 s) or none: no "hang"; network errors and
+//     cancellation allowed;
+//   - cancellation is performed by the stub itself, synchronously, inside the
+//     chosen call ("during": before it returns the context error; "backoff":
+//     before it returns a response-type failure, so the select of the back-off
+//     finds ctx.Done() ready) or before Handle is called ("before");
+//   - only lower bounds on gaps are reported/judged; the per-request guard
+//     (20 s) exists only so that a hanging mutant ends.
 
 import (
 	stdcontext "context"
@@ -46,7 +62,7 @@ type c10CB struct {
 type c10Req struct {
 	Stream bool     `json:"stream"`
 	Script []string `json:"script"` // per transport call: ok | s:<code> | net | hang | bad
-	Cancel string   `json:"cancel"` // "" | before | during | backoff
+	Cancel string   `json:"cancel"` // "" | before | during | backoff (all performed synchronously by the stub)
 	At     int      `json:"at"`     // transport call index the cancellation is tied to
 }
 
@@ -74,13 +90,16 @@ type c10Obs struct {
 	Reqs   []c10ReqObs `json:"reqs"`
 }
 
-func c10GenScript(r *verifh.Rand, n int, timeout bool, codes []int) []string {
-	fails := []string{"net", "net", "bad"}
+func c10GenScript(r *verifh.Rand, n int, tkind int, codes []int) []string {
+	// tkind: 0 no pool timeout, 1 small (every hang is a deadline), 2 large
+	fails := []string{"bad"}
 	for _, c := range codes {
 		fails = append(fails, "s:"+strconv.Itoa(c))
 	}
-	if timeout {
-		fails = append(fails, "hang", "hang")
+	if tkind == 1 {
+		fails = append(fails, "hang", "hang", "hang")
+	} else {
+		fails = append(fails, "net", "net", "net")
 	}
 	oks := []string{"ok", "ok", "s:201", "s:404", "s:500", "s:503"}
 	isFail := func(s string) bool {
@@ -145,10 +164,14 @@ func c10Gen(r *verifh.Rand, i int) interface{} {
 	default:
 		in.FailureCodes = []int{404, 500, 503}
 	}
-	if r.Bool(1, 2) {
-		in.TimeoutNs = int64(r.PickInt(2, 3, 4)) * int64(time.Millisecond)
+	tkind := r.PickInt(0, 0, 1, 1, 2)
+	switch tkind {
+	case 1:
+		in.TimeoutNs = int64(10 * time.Millisecond)
+	case 2:
+		in.TimeoutNs = int64(5 * time.Second)
 	}
-	backoffCase, defaultWait := false, false
+	defaultWait := false
 	if r.Bool(17, 20) {
 		rt := &c10Retry{Max: r.PickInt(1, 2, 2, 3, 3, 4, 5), Wait: r.Pick("1ms", "2ms", "2ms", "3ms", "5ms", "1500us"),
 			Backoff: r.Pick("random", "exponential", "exponential", "")}
@@ -159,16 +182,6 @@ func c10Gen(r *verifh.Rand, i int) interface{} {
 			rt.Max = r.PickInt(1, 2)
 			rt.Backoff = "random"
 			defaultWait = true
-		}
-		if r.Bool(1, 12) { // cancellation while the back-off timer runs: a back-off far longer than the case
-			rt.Wait = "10s"
-			if rt.FNum == rt.FDen {
-				rt.FNum, rt.FDen = 1, 2
-			}
-			if rt.Max < 2 {
-				rt.Max = 3
-			}
-			backoffCase = true
 		}
 		in.Retry = rt
 	}
@@ -181,21 +194,37 @@ func c10Gen(r *verifh.Rand, i int) interface{} {
 	if in.Retry != nil {
 		max = in.Retry.Max
 	}
-	if backoffCase || defaultWait {
+	if defaultWait {
 		nreq = 1
 	}
 	for q := 0; q < nreq; q++ {
 		rq := c10Req{Stream: r.Bool(1, 5)}
-		rq.Script = c10GenScript(r, max+1, in.TimeoutNs > 0, in.FailureCodes)
-		if backoffCase {
-			rq.Stream = false
-			rq.Script[0] = r.Pick("net", "bad", "net")
-			rq.Cancel, rq.At = "backoff", 0
-		} else if r.Bool(1, 6) {
-			rq.Cancel = r.Pick("before", "during", "during")
+		rq.Script = c10GenScript(r, max+1, tkind, in.FailureCodes)
+		if tkind != 1 && r.Bool(1, 4) { // cancellation only where no deadline can interfere
+			rq.Cancel = r.Pick("before", "during", "during", "backoff", "backoff")
 			rq.At = r.Intn(max + 1)
-			if rq.Cancel == "before" {
+			switch rq.Cancel {
+			case "before":
 				rq.At = 0
+			case "backoff":
+				// the stub cancels inside call At and then answers with a failure whose
+				// classification does not consult the context
+				for k := 0; k < rq.At && k < len(rq.Script); k++ {
+					rq.Script[k] = r.Pick("net", "bad", "net")
+				}
+				if rq.At < len(rq.Script) {
+					rq.Script[rq.At] = "bad"
+				}
+			case "during":
+				for k := 0; k < rq.At && k < len(rq.Script); k++ {
+					if r.Bool(2, 3) {
+						rq.Script[k] = r.Pick("net", "bad")
+					}
+				}
+			}
+			// with f = 1 the back-off may be 0 ns and the select could pick either ready case
+			if in.Retry != nil && in.Retry.FNum == in.Retry.FDen {
+				in.Retry.FNum, in.Retry.FDen = 1, 2
 			}
 		}
 		in.Reqs = append(in.Reqs, rq)
@@ -209,6 +238,7 @@ type c10State struct {
 	cancel   string
 	at       int
 	cancelFn stdcontext.CancelFunc
+	client   stdcontext.Context
 	starts   []time.Time
 	ends     []time.Time
 }
@@ -243,16 +273,20 @@ func (st *c10State) send(r *http.Request) (resp *http.Response, err error) {
 		st.mu.Unlock()
 	}()
 	ctx := r.Context()
+	// what net/http does for a request whose client is already gone
+	if st.client != nil && st.client.Err() != nil {
+		return nil, st.client.Err()
+	}
 	if st.cancel == "during" && k >= st.at {
-		st.cancelFn()
+		st.cancelFn() // synchronous: the client goes away inside this call
 		<-ctx.Done()
 		return nil, ctx.Err()
 	}
-	if e := ctx.Err(); e != nil { // what net/http does for a request whose context is already done
-		return nil, e
-	}
 	if st.cancel == "backoff" && k == st.at {
-		time.AfterFunc(2*time.Millisecond, st.cancelFn)
+		st.cancelFn() // synchronous: ctx.Done() is ready when the back-off select is evaluated
+		if entry == "net" || entry == "hang" {
+			return nil, st.client.Err()
+		}
 	}
 	switch {
 	case entry == "ok":
@@ -269,7 +303,7 @@ func (st *c10State) send(r *http.Request) (resp *http.Response, err error) {
 		select {
 		case <-ctx.Done():
 			return nil, ctx.Err()
-		case <-time.After(3 * time.Second): // guard: the generator only uses hang with a pool timeout
+		case <-time.After(15 * time.Second): // guard: the generator only uses hang with a pool timeout
 			return nil, fmt.Errorf("verif: hang guard")
 		}
 	default:
@@ -338,7 +372,7 @@ func c10Exec(raw json.RawMessage) interface{} {
 			break
 		}
 		cctx, cancel := stdcontext.WithCancel(stdcontext.Background())
-		st := &c10State{script: rq.Script, cancel: rq.Cancel, at: rq.At, cancelFn: cancel}
+		st := &c10State{script: rq.Script, cancel: rq.Cancel, at: rq.At, cancelFn: cancel, client: cctx}
 		if rq.Cancel == "before" {
 			cancel()
 		}
@@ -373,13 +407,13 @@ func c10Exec(raw json.RawMessage) interface{} {
 			if d.panic != nil {
 				ro.Panic = fmt.Sprint(d.panic)
 			}
-		case <-time.After(4 * time.Second):
+		case <-time.After(20 * time.Second): // hang guard only (never reached by a correct tree)
 			ro.Late = true
 			cancel()
 			select {
 			case d := <-ch:
 				ro.Result = d.res
-			case <-time.After(15 * time.Second):
+			case <-time.After(20 * time.Second):
 			}
 		}
 		ro.ElapsedNs = int64(time.Since(t0))
@@ -403,5 +437,5 @@ func c10Exec(raw json.RawMessage) interface{} {
 }
 
 func TestVerifC10(t *testing.T) {
-	verifh.Run(t, c10Gen, c10Exec, 30*time.Second)
+	verifh.Run(t, c10Gen, c10Exec, 5*time.Minute)
 }
